@@ -2,8 +2,7 @@
    as the response head - for EVERY program (list of start_response / write actions, any ending), every
    request and every worker wrapper.  Invariant proofs by induction over the program. *)
 From Coq Require Import List NArith ZArith Bool Lia Arith.
-From GV Require Import Base.Enc Base.Dec Model.RespStr Gen.GenResponse Model.Response Spec.RespSpec
-  Proof.RespStrProofs Proof.RespTables.
+From GV Require Import Base.Enc Base.Dec Model.RespStr Gen.GenResponse Model.Response Spec.RespSpec Proof.RespStrProofs Proof.RespTables.
 Import ListNotations.
 Local Open Scope N_scope.
 
